@@ -14,3 +14,16 @@ var specs = map[string]spec{
 		Assume: []string{"eviction is exercised with tolerances that make the age comparison independent of elapsed time (-1h: every tx is older; 1000h: none is)"},
 		RacePkgs: poolPkgs, MinStats: map[string]int64{"obs_pending_nonce_checks": 1000, "drained_ready_txs": 50}},
 }
+
+var ledgerPkgs = []string{"internal/ledger"}
+
+func init() {
+	specs["C13"] = spec{Prop: "C13", Workload: "kv13", Race: true, Level: "exploration", Quick: 400, Thorough: 20000, PerBatch: 25, Watchdog: 10 * time.Minute,
+		Rule: "each case = PRNG-generated history of ~60 state-ledger calls (SetState/AddState incl. deletes and empty values, SetBalance/Nonce/Code, nested Snapshot/RevertToSnapshot, Finalise, FlushDirtyData+Commit, close+reopen) over 3 accounts x 7 keys that are prefixes of each other, with account-cache capacities 1-3 so evictions happen constantly (or default sizes); after every call a random subset, and before every flush / after every reopen the whole universe, of getters and prefix queries is compared with a map-based model; non-trivial = the history reverted a snapshot, reopened, or overwrote through AddState; distinct by (cache sizes, AddState used, set of such kinds)",
+		Assume: []string{"values written through the non-journaled AddState are 'unknown' to the model after a revert to an older snapshot (the statement promises restoration only for journaled values)", "'present and empty' vs 'absent' is not judged (leveldb cannot represent the difference)", "model/kv.go is the specification"},
+		RacePkgs: ledgerPkgs, MinStats: map[string]int64{"obs_state_reads": 5000, "obs_prefix_queries": 1000, "blocks": 300}}
+	specs["C12"] = spec{Prop: "C12", Workload: "kv12", Race: true, Level: "exploration", Quick: 150, Thorough: 5000, PerBatch: 10, Watchdog: 10 * time.Minute,
+		Rule: "state-ledger part: each case = ~140 generated calls forming 15-30 blocks (creations, overwrites, deletes, delete-then-recreate, code changes, AddState, accounts touched but unchanged) with RollbackState to targets inside the retained window (every distance), below it, above the head, repeated, optionally after a reopen; after a rollback every getter over the whole universe must equal the model state recorded when that height was committed, Version()==target, a refused rollback must leave the store byte-identical, and re-executing the recorded ops of block target+1 must reproduce its recorded root; distinct by (cache sizes, AddState used, rollback distances, refused, reexec)",
+		Assume: []string{"executor-level rollback (rollbackBlocks) is covered by the replica workload of C12b/C09", "model/kv.go is the specification"},
+		RacePkgs: ledgerPkgs, MinStats: map[string]int64{"rollbacks": 100, "reexecuted_blocks": 20}}
+}
